@@ -714,6 +714,7 @@ type jsonCase struct {
 	Legal       bool                `json:"legal"`
 	Encoded     bool                `json:"encoded"` // every line was written by NewJSONTargetEncoder
 	LongLine    int                 `json:"long_line,omitempty"`
+	SpareCap    map[string]int      `json:"spare_cap,omitempty"` // spare capacity of the default value slices
 }
 
 func genJSONTarget(r *kit.Rng, i int, broken bool) vegeta.Target {
@@ -835,8 +836,12 @@ func validUTF8Target(t *vegeta.Target) bool {
 func genJSONCase(r *kit.Rng) (jsonCase, []vegeta.Target, []string) {
 	jc := jsonCase{Legal: true, Encoded: true, Defaults: map[string][]string{}}
 	jc.DefaultBody = genBody(r)
+	jc.SpareCap = map[string]int{}
 	for _, d := range genDefaults(r) {
 		jc.Defaults[d.Key] = d.Vals
+		if d.Cap > len(d.Vals) {
+			jc.SpareCap[d.Key] = d.Cap - len(d.Vals)
+		}
 	}
 	n := 1 + r.Pick(50)
 	if r.Chance(0.6) {
@@ -915,14 +920,12 @@ func expectedJSON(jc *jsonCase, own tview) tview {
 	return v
 }
 
-func mkJSONDefaults(m map[string][]string, r *kit.Rng) http.Header {
+// mkJSONDefaults builds the default header map; spare[k] > 0 gives the value slice of k that
+// much spare capacity (as repeated -header flags do: three values end up in a slice of capacity 4)
+func mkJSONDefaults(m map[string][]string, spare map[string]int) http.Header {
 	h := http.Header{}
 	for k, vs := range m {
-		c := len(vs)
-		if r != nil && r.Chance(0.5) {
-			c += 3
-		}
-		s := make([]string, len(vs), c)
+		s := make([]string, len(vs), len(vs)+spare[k])
 		copy(s, vs)
 		h[k] = s
 	}
@@ -984,7 +987,7 @@ type jsonRunResult struct {
 
 func runJSON(s *kit.Summary, jc *jsonCase, ncalls int, r *kit.Rng) jsonRunResult {
 	var res jsonRunResult
-	hdr := mkJSONDefaults(jc.Defaults, r)
+	hdr := mkJSONDefaults(jc.Defaults, jc.SpareCap)
 	dflt0 := copyHeader(hdr)
 	var body []byte
 	if jc.DefaultBody != nil {
@@ -1492,7 +1495,7 @@ func runC14(c *run.Ctx, s *kit.Summary) {
 			var ts []vegeta.Target
 			var lines []string
 			if i < len(specialJ) {
-				jc = jsonCase{Src: specialJ[i], Legal: true, Defaults: map[string][]string{"X": {"d"}}}
+				jc = jsonCase{Src: specialJ[i], Legal: true, Defaults: map[string][]string{"X": {"d"}}, SpareCap: map[string]int{"X": 3}}
 				s.Count("json:empty_stream")
 			} else {
 				wantLong = 0
@@ -1508,6 +1511,9 @@ func runC14(c *run.Ctx, s *kit.Summary) {
 			}
 			if jc.LongLine > 0 {
 				s.Count(fmt.Sprintf("json:line_length~%d", jc.LongLine))
+			}
+			if len(jc.SpareCap) > 0 {
+				s.Count("json:default_with_spare_capacity")
 			}
 			for k := range ts {
 				for _, vs := range ts[k].Header {
@@ -1531,7 +1537,7 @@ func runC14(c *run.Ctx, s *kit.Summary) {
 				s.Sample(map[string]interface{}{"op": "c14.json", "src": jc.Src, "impl": res.line})
 			}
 			if i%3 == 0 || i < len(specialJ) {
-				tr := vegeta.NewJSONTargeter(strings.NewReader(jc.Src), jc.DefaultBody, mkJSONDefaults(jc.Defaults, nil))
+				tr := vegeta.NewJSONTargeter(strings.NewReader(jc.Src), jc.DefaultBody, mkJSONDefaults(jc.Defaults, jc.SpareCap))
 				tgts, err := vegeta.ReadAllTargets(tr)
 				line := ""
 				if err != nil {
